@@ -5,7 +5,7 @@ From PCD Require Import Base.PyBase Base.Cfg Model.Flags Model.Args Model.Data M
   Model.LineTable Model.Blocks Model.CodeData Spec.Lnotab Spec.Dis Model.ViewSer
   Proofs.C02_Statements Proofs.C11_Statements Proofs.C01_Statements.
 From PCD Require Proofs.TablesReplay Proofs.BlocksPartition Proofs.DecodeView Proofs.InstrCodec
-  Proofs.ConstsProofs.
+  Proofs.ConstsProofs Gen.Cfg39.
 Import ListNotations. Open Scope Z_scope.
 Ltac Zify.zify_post_hook ::= Z.to_euclidean_division_equations.
 
@@ -342,4 +342,640 @@ Section Sim.
     destruct (op <? cfg_have_argument c) eqn:L; inversion H; subst parg st';
       (eexists; split; [reflexivity|]; split; [constructor; assumption|reflexivity]).
   Qed.
+
+  (** ** the instruction loop *)
+
+  Notation FARGS := (first_args key_eqb is_str_const (KInner INone)).
+  Notation ADDL := (add_additional key_eqb is_str_const (KInner INone)).
+
+  Definition nov_of (parg : arg_ const) (n : Z) : option Z :=
+    match parg with AJump _ _ => if n >? 1 then Some n else None | _ => None end.
+
+  Definition irel (oi : Z * instr_ const) (p : pinstr) : Prop :=
+    fst oi = p_first p /\ i_name (snd oi) = p_op p /\
+    arg_rel (p_op p) (p_arg p) (p_next p) (i_arg (snd oi)) /\
+    i_nargs (snd oi) = nov_of (i_arg (snd oi)) (p_nargs p).
+
+  Definition v0i (i : instr_ const) (p : pinstr) : Z := v0 (i_arg i) (p_arg p).
+
+  Lemma retarget_FA T (i : instr_ const) est :
+    FA (i_arg (retarget T i)) bt freevars est = FA (i_arg i) bt freevars est.
+  Proof. unfold retarget. destruct (i_arg i) eqn:E; cbn [i_arg]; rewrite ?E; reflexivity. Qed.
+
+  Lemma retarget_v0 T (i : instr_ const) a : v0 (i_arg (retarget T i)) a = v0 (i_arg i) a.
+  Proof. unfold retarget. destruct (i_arg i) eqn:E; cbn [i_arg]; rewrite ?E; reflexivity. Qed.
+
+  Lemma decode_sim T : forall ps lm st ois lm' st' est,
+    Inv st est -> Forall (fun p => 0 <= p_arg p) ps ->
+    decode_instrs key_eqb c ps freevars lm st = OK (ois, lm', st') ->
+    exists est',
+      FARGS (map (retarget T) (map snd ois)) bt freevars est
+        = OK (zipw v0i (map (retarget T) (map snd ois)) ps, est') /\
+      Inv st' est' /\ Forall2 irel ois ps.
+  Proof.
+    induction ps as [|[[[[op a] n] off] nx] r IH]; intros lm st ois lm' st' est HI HF H.
+    - cbn [decode_instrs] in H. inversion H; subst. exists est. split; [reflexivity|]. split; [exact HI|constructor].
+    - cbn [decode_instrs] in H. apply Forall_cons_iff in HF as [Ha HF]. cbn in Ha.
+      destruct (to_arg key_eqb c op a nx freevars st) as [[parg st1]|e] eqn:Et; [|discriminate].
+      destruct (to_arg_sim _ _ _ _ _ _ _ HI Ha Et) as (est1 & Hfa & HI1 & Hrel).
+      destruct (oget (lm_lines lm) off) as [line|]; [|discriminate].
+      match type of H with
+      | match ?X with _ => _ end = _ => destruct X as [[[rest lm1] st2]|e] eqn:Er; [|discriminate]
+      end.
+      inversion H; subst ois lm1 st2. clear H.
+      destruct (IH _ _ _ _ _ _ HI1 HF Er) as (est' & Hfs & HI' & HR).
+      exists est'. cbn [map snd first_args]. rewrite retarget_FA. cbn [i_arg]. rewrite Hfa, Hfs.
+      split; [|split; [exact HI'|]].
+      + rewrite zipw_cons. unfold v0i at 2. rewrite retarget_v0. reflexivity.
+      + constructor; [|exact HR]. unfold irel. cbn [fst snd i_name i_arg i_nargs].
+        repeat split; try reflexivity; try exact Hrel.
+  Qed.
+
+  (** ** the additional arguments and the final tables *)
+
+  Lemma adds_found {T} (keq : T -> T -> bool)
+    (Hr : forall x, keq x x = true) (Hs : forall x y, keq x y = keq y x)
+    (Ht : forall x y z, keq x y = true -> keq y z = true -> keq x z = true)
+    tbl ts adds :
+    TR.DI keq tbl ts -> additional_args keq ts = OK adds ->
+    exists idxs ts', TR.found_all keq ts idxs = OK (adds, ts') /\
+      Forall (fun i => 0 <= i < zlen tbl) idxs /\
+      (forall i, 0 <= i < zlen tbl -> omem (ta_order ts') i = true).
+  Proof.
+    intros HD Hadd.
+    destruct (TR.additional_args_found_all keq Hr Hs Ht _ _ Hadd) as (ts' & Hf').
+    assert (Ha := TR.D_args _ _ _ HD). assert (HFm := TR.missing_in_range tbl ts Ha).
+    rewrite Ha in Hf', HFm.
+    eexists _, ts'. split; [exact Hf'|]. split; [exact HFm|].
+    intros i Hi. apply (TR.found_all_mem keq Hr Hs Ht _ _ _ _ Hf').
+    destruct (omem (ta_order ts) i) eqn:Em; [now left|]. right.
+    apply filter_In. split; [now apply TR.in_zrange | now rewrite Em].
+  Qed.
+
+  Lemma str_table_done tbl ts fs adds :
+    DIs tbl ts -> EIs tbl ts fs -> additional_args str_eqb ts = OK adds ->
+    exists is2 fs2, TR.add_all str_eqb fs adds = OK (is2, fs2) /\ fa_to_tuple fs2 = OK tbl.
+  Proof.
+    intros HD HE Hadd.
+    destruct (adds_found str_eqb str_eqb_refl str_eqb_sym str_eqb_trans _ _ _ HD Hadd)
+      as (idxs & ts' & Hf & HF & Hall).
+    destruct (TR.replay_found_all str_eqb str_eqb_refl str_eqb_sym str_eqb_trans _ _ _ _ _ _ HD HE HF Hf)
+      as (fs2 & Hadd2 & HD2 & HE2).
+    exists idxs, fs2. split; [exact Hadd2|].
+    exact (TR.to_tuple_full str_eqb str_eqb_refl str_eqb_sym str_eqb_trans _ _ _ HD2 HE2 Hall).
+  Qed.
+
+  Lemma addl_names : forall an en ev ec ek rest,
+    ADDL (arg_of_additional AName an ++ rest) bt freevars (mkEnc en ev ec ek) =
+    match TR.add_all str_eqb en an with
+    | OK (_, t) => ADDL rest bt freevars (mkEnc t ev ec ek)
+    | Err e => Err e
+    end.
+  Proof.
+    induction an as [|[s ov] r IH]; intros; [reflexivity|].
+    cbn [arg_of_additional map app add_additional from_arg fst snd TR.add_all e_names e_varnames
+         e_cellvars e_consts].
+    destruct (fa_add str_eqb en s ov) as [[i t]|]; [|reflexivity].
+    fold (@arg_of_additional const str AName r). rewrite IH.
+    destruct (TR.add_all str_eqb t r) as [[? ?]|]; reflexivity.
+  Qed.
+
+  Lemma addl_varnames : forall an en ev ec ek rest,
+    ADDL (arg_of_additional AVarname an ++ rest) bt freevars (mkEnc en ev ec ek) =
+    match TR.add_all str_eqb ev an with
+    | OK (_, t) => ADDL rest bt freevars (mkEnc en t ec ek)
+    | Err e => Err e
+    end.
+  Proof.
+    induction an as [|[s ov] r IH]; intros; [reflexivity|].
+    cbn [arg_of_additional map app add_additional from_arg fst snd TR.add_all e_names e_varnames
+         e_cellvars e_consts].
+    destruct (fa_add str_eqb ev s ov) as [[i t]|]; [|reflexivity].
+    fold (@arg_of_additional const str AVarname r). rewrite IH.
+    destruct (TR.add_all str_eqb t r) as [[? ?]|]; reflexivity.
+  Qed.
+
+  Lemma addl_cellvars : forall an en ev ec ek rest,
+    ADDL (arg_of_additional ACellvar an ++ rest) bt freevars (mkEnc en ev ec ek) =
+    match TR.add_all str_eqb ec an with
+    | OK (_, t) => ADDL rest bt freevars (mkEnc en ev t ek)
+    | Err e => Err e
+    end.
+  Proof.
+    induction an as [|[s ov] r IH]; intros; [reflexivity|].
+    cbn [arg_of_additional map app add_additional from_arg fst snd TR.add_all e_names e_varnames
+         e_cellvars e_consts].
+    destruct (fa_add str_eqb ec s ov) as [[i t]|]; [|reflexivity].
+    fold (@arg_of_additional const str ACellvar r). rewrite IH.
+    destruct (TR.add_all str_eqb t r) as [[? ?]|]; reflexivity.
+  Qed.
+
+  Lemma addl_consts : forall idxs ts fs uses ts' en ev ec,
+    TR.DI key_eqb ks ts -> TR.EI key_eqb ks ts fs ->
+    Forall (fun i => 0 <= i < zlen ks) idxs ->
+    TR.found_all key_eqb ts idxs = OK (uses, ts') ->
+    exists fs', ADDL (arg_of_additional AConst uses) bt freevars (mkEnc en ev ec fs)
+                = OK (mkEnc en ev ec fs') /\
+                TR.DI key_eqb ks ts' /\ TR.EI key_eqb ks ts' fs'.
+  Proof.
+    induction idxs as [|i r IH]; intros ts fs uses ts' en ev ec HD HE HF H; cbn [TR.found_all] in H.
+    - inversion H; subst. exists fs. cbn. auto.
+    - apply Forall_cons_iff in HF as [Hi HF]. cbv beta in Hi.
+      destruct (found_index key_eqb ts i) as [[[k ov] ts1]|] eqn:Ef; [|discriminate].
+      destruct (TR.found_all key_eqb ts1 r) as [[l ts2]|] eqn:Er; [|discriminate].
+      inversion H; subst uses ts2. clear H.
+      assert (Hi0 : 0 <= i) by lia.
+      destruct (step_const _ _ _ _ _ _ en ev ec HD HE Hi0 Ef) as (fs1 & Hadd & HD1 & HE1).
+      destruct (IH _ _ _ _ en ev ec HD1 HE1 HF Er) as (fs' & Hall & HD' & HE').
+      exists fs'. split; [|split; assumption].
+      cbn [arg_of_additional map fst snd add_additional]. rewrite Hadd. exact Hall.
+  Qed.
+
+  Lemma collect_length {T} (d : odict T) : forall n i l, collect d n i = Some l -> length l = n.
+  Proof.
+    induction n as [|n IH]; intros i l H; cbn [collect] in H.
+    - inversion H. reflexivity.
+    - destruct (oget d i); [|discriminate]. destruct (collect d n (i + 1)) eqn:E; [|discriminate].
+      inversion H; subst. cbn [length]. f_equal. eapply IH; eassumption.
+  Qed.
+
+  Lemma to_tuple_len {T} (fs : fromargs T) l : fa_to_tuple fs = OK l -> zlen (fa_items fs) = zlen l.
+  Proof.
+    unfold fa_to_tuple. destruct (collect _ _ _) eqn:E; [|discriminate]. intros H; inversion H; subst.
+    apply collect_length in E. unfold zlen. now rewrite E.
+  Qed.
+
+  Lemma additional_sim st est an av ac ak :
+    Inv st est ->
+    additional_args str_eqb (d_names st) = OK an ->
+    additional_args str_eqb (d_varnames st) = OK av ->
+    additional_args str_eqb (d_cellvars st) = OK ac ->
+    additional_args key_eqb (d_consts st) = OK ak ->
+    exists est2,
+      ADDL (arg_of_additional AName an ++ arg_of_additional AVarname av
+            ++ arg_of_additional ACellvar ac ++ arg_of_additional AConst ak) bt freevars est = OK est2 /\
+      fa_to_tuple (e_names est2) = OK names /\ fa_to_tuple (e_varnames est2) = OK varnames /\
+      fa_to_tuple (e_cellvars est2) = OK cellvars /\ fa_to_tuple (e_consts est2) = OK ks.
+  Proof.
+    intros HI Hn Hv Hc Hk. destruct HI. destruct est as [en ev ec ek].
+    cbn [e_names e_varnames e_cellvars e_consts] in *.
+    destruct (str_table_done _ _ _ _ I_dn0 I_en0 Hn) as (in2 & fn2 & An & Tn).
+    destruct (str_table_done _ _ _ _ I_dv0 I_ev0 Hv) as (iv2 & fv2 & Av & Tv).
+    destruct (str_table_done _ _ _ _ I_dc0 I_ec0 Hc) as (ic2 & fc2 & Ac & Tc).
+    destruct (adds_found key_eqb kr ks_ kt _ _ _ I_dk0 Hk) as (idxs & ts' & Hf & HF & Hall).
+    destruct (addl_consts _ _ _ _ _ fn2 fv2 fc2 I_dk0 I_ek0 HF Hf) as (fk2 & Ak & HDk & HEk).
+    exists (mkEnc fn2 fv2 fc2 fk2).
+    rewrite addl_names, An, addl_varnames, Av, addl_cellvars, Ac.
+    split; [exact Ak|]. cbn [e_names e_varnames e_cellvars e_consts].
+    repeat split; try assumption.
+    exact (TR.to_tuple_full key_eqb kr ks_ kt _ _ _ HDk HEk Hall).
+  Qed.
 End Sim.
+
+(* ------------------------------------------------------------------ *)
+(** * 4. Relaxation: with the original sizes, one round computes the original jump operands *)
+
+Lemma firstn_exact {A} (l l' : list A) n : length l = n -> firstn n (l ++ l') = l.
+Proof. intros <-. induction l as [|x l IH]; [destruct l'; reflexivity|]. cbn. now rewrite IH. Qed.
+Lemma skipn_exact {A} (l l' : list A) n : length l = n -> skipn n (l ++ l') = l'.
+Proof. intros <-. induction l as [|x l IH]; [reflexivity|]. cbn. exact IH. Qed.
+
+Lemma Forall2_map_l_in {A A' B} (f : A -> A') (R : A -> B -> Prop) (Q : A' -> B -> Prop) l ps :
+  Forall2 R l ps -> (forall x p, In x l -> In p ps -> R x p -> Q (f x) p) -> Forall2 Q (map f l) ps.
+Proof.
+  induction 1 as [|x p l ps Hxp HF IH]; intros H; cbn [map]; constructor.
+  - apply H; [now left|now left|exact Hxp].
+  - apply IH. intros x' p' Hx' Hp'. apply H; now right.
+Qed.
+
+Section Relax.
+  Context {C : Type}.
+  Variable c : cfg.
+
+  Definition mult : Z := if cfg_v310 c then 1 else 2.
+
+  (* operand values that enter the relaxation loop *)
+  Definition v1i (i : instr_ C) (p : pinstr) : Z :=
+    match i_arg i with AJump _ _ => 1 | _ => p_arg p end.
+
+  Definition sz_ok (i : instr_ C) (p : pinstr) : Prop := n_units (i_nargs i) (v1i i p) = p_nargs p.
+
+  Lemma sum_sizes : forall blk ps, Forall2 sz_ok blk ps ->
+    sumZ (map (fun iv : instr_ C * Z => n_units (i_nargs (fst iv)) (snd iv))
+              (combine blk (zipw v1i blk ps))) = sumZ (map p_nargs ps).
+  Proof.
+    induction 1 as [|i p blk ps Hip HF IH]; [reflexivity|].
+    rewrite zipw_cons. cbn [combine map fst snd]. unfold sumZ in *. cbn [fold_right].
+    rewrite IH. unfold sz_ok in Hip. lia.
+  Qed.
+
+  Lemma block_offsets_ok : forall (blocks : list (list (instr_ C))) ps cur s,
+    tiled s ps -> s = 2 * cur -> Forall2 sz_ok (concat blocks) ps ->
+    Forall (fun b => b <> []) blocks ->
+    Forall2 (fun bo t => t = 2 * bo)
+            (block_offsets blocks (zipw v1i (concat blocks) ps) cur)
+            (BP.block_starts blocks (map p_first ps)).
+  Proof.
+    induction blocks as [|blk r IH]; intros ps cur s Ht Hs HF Hne; [constructor|].
+    cbn [concat] in HF. apply Forall2_app_inv_l in HF as (ps1 & ps2 & H1 & H2 & ->).
+    apply Forall_cons_iff in Hne as [Hb Hne].
+    assert (Hlen : length blk = length ps1) by (eapply Forall2_length'; eassumption).
+    cbn [block_offsets BP.block_starts concat].
+    rewrite zipw_app by exact Hlen.
+    rewrite (firstn_exact _ _ _ (zipw_length v1i blk ps1 Hlen)).
+    rewrite (skipn_exact _ _ _ (zipw_length v1i blk ps1 Hlen)).
+    rewrite (sum_sizes _ _ H1). rewrite map_app.
+    rewrite (skipn_exact (map p_first ps1) _ (length blk)) by (rewrite map_length; lia).
+    destruct (tiled_app _ _ _ Ht) as [T1 T2].
+    constructor.
+    - destruct ps1 as [|p ps1]; [destruct blk; [congruence|discriminate]|].
+      cbn [map app]. cbn [tiled] in T1. lia.
+    - eapply IH; [exact T2| |exact H2|exact Hne]. lia.
+  Qed.
+
+  Definition jrel (offs : list Z) (i : instr_ C) (p : pinstr) : Prop :=
+    sz_ok i p /\
+    match i_arg i with
+    | AJump k rel =>
+        exists toff, py_index_dict offs k = Some toff /\
+          2 * toff = (if rel then p_next p + scale c * p_arg p else scale c * p_arg p) /\
+          (i_nargs i = None -> 0 <= p_arg p < 256) /\ (forall n, i_nargs i = Some n -> n <> 0)
+    | _ => True
+    end.
+
+  Lemma update_jumps_ok offs : forall (l : list (instr_ C)) ps cur s,
+    tiled s ps -> s = 2 * cur -> Forall2 (jrel offs) l ps ->
+    update_jumps c l (zipw v1i l ps) offs cur = OK (map p_arg ps, false).
+  Proof.
+    intros l ps cur s Ht Hs HF. revert cur s Ht Hs.
+    induction HF as [|i p l ps [Hsz Hj] HF IH]; intros cur s Ht Hs; [reflexivity|].
+    rewrite zipw_cons. cbn [update_jumps map]. cbn [tiled] in Ht. destruct Ht as (T1 & T2 & T3).
+    unfold sz_ok in Hsz. rewrite Hsz.
+    assert (IH' := IH (cur + p_nargs p) (p_next p) T3 ltac:(lia)).
+    destruct (i_arg i) as [z|k rel|s0 ov|s0 ov|k0 ov|s0|s0 ov|z] eqn:Ea;
+      try (rewrite IH'; unfold v1i; rewrite Ea; reflexivity).
+    destruct Hj as (toff & Hpd & Htoff & Hnone & Hsome). rewrite Hpd, IH'.
+    assert (Hnv : (if rel then (toff - (cur + p_nargs p)) * (if cfg_v310 c then 1 else 2)
+                   else (if cfg_v310 c then 1 else 2) * toff) = p_arg p).
+    { unfold scale in Htoff. destruct rel; destruct (cfg_v310 c); lia. }
+    rewrite Hnv. f_equal. f_equal.
+    destruct (i_nargs i) as [n|] eqn:En.
+    - specialize (Hsome n eq_refl). destruct (n =? 0) eqn:E0; [lia|]. reflexivity.
+    - specialize (Hnone eq_refl). cbn [negb andb].
+      unfold v1i in Hsz. rewrite Ea in Hsz. cbn in Hsz. rewrite <- Hsz.
+      unfold instrsize. destruct (p_arg p <? 0) eqn:E1; [lia|].
+      destruct (p_arg p <=? 255) eqn:E2; [reflexivity|lia].
+  Qed.
+
+  Lemma relax_ok (blocks : list (list (instr_ C))) ps :
+    tiled 0 ps -> Forall2 sz_ok (concat blocks) ps -> Forall (fun b => b <> []) blocks ->
+    (forall offs, Forall2 (fun bo t => t = 2 * bo) offs (BP.block_starts blocks (map p_first ps)) ->
+                  Forall2 (jrel offs) (concat blocks) ps) ->
+    relax (3 * length (concat blocks) + 2) c blocks (zipw v1i (concat blocks) ps) = OK (map p_arg ps).
+  Proof.
+    intros Ht Hsz Hne Hj.
+    replace (3 * length (concat blocks) + 2)%nat with (S (3 * length (concat blocks) + 1)) by lia.
+    cbn [relax].
+    rewrite (update_jumps_ok _ _ _ 0 0 Ht ltac:(lia)
+               (Hj _ (block_offsets_ok _ _ 0 0 Ht ltac:(lia) Hsz Hne))).
+    reflexivity.
+  Qed.
+End Relax.
+
+(* ------------------------------------------------------------------ *)
+(** * 5. Initial states *)
+
+Lemma nth_error_firstn_lt {A} (l : list A) : forall P I, (I < P)%nat -> nth_error (firstn P l) I = nth_error l I.
+Proof.
+  induction l as [|x l IH]; intros P I H.
+  - rewrite firstn_nil. reflexivity.
+  - destruct P; [lia|]. destruct I; [reflexivity|]. cbn. apply IH. lia.
+Qed.
+
+Lemma varnames_preset varnames freevars a :
+  tables_wf varnames freevars a = true ->
+  0 <= args_len a <= zlen varnames /\ TR.preset_unique str_eqb varnames (args_len a) /\
+  args_to_varnames a = take (args_len a) varnames /\ NoDup freevars.
+Proof.
+  unfold tables_wf. cbv zeta. intros H. split_andb.
+  assert (Hp : 0 <= args_len a) by (unfold args_len, zlen; lia).
+  split; [lia|]. split; [|split; [now apply ConstsProofs.strlist_eqb_spec|now apply nodup_str_NoDup]].
+  set (p := args_len a) in *.
+  intros i j x y Hi Hj Hne Hx Hy. apply str_eqb_false. intros ->.
+  apply py_index_Some_range in Hx as [_ Hx]; [|lia].
+  apply py_index_Some_range in Hy as [_ Hy]; [|lia].
+  assert (Hxt : nth_error (take p varnames) (Z.to_nat i) = Some y)
+    by (unfold take; rewrite nth_error_firstn_lt by lia; exact Hx).
+  destruct (Z_lt_ge_dec j p) as [Hjp|Hjp].
+  - assert (Hyt : nth_error (take p varnames) (Z.to_nat j) = Some y)
+      by (unfold take; rewrite nth_error_firstn_lt by lia; exact Hy).
+    match goal with N : nodup_str _ = true |- _ => apply nodup_str_NoDup in N;
+      pose proof (BP.NoDup_nth_error_inj _ _ _ _ N Hxt Hyt) end. lia.
+  - assert (Hyd : In y (drop p varnames)).
+    { unfold drop. apply (nth_error_In _ (Z.to_nat j - Z.to_nat p)).
+      rewrite DV.nth_error_skipn_add. replace (Z.to_nat p + (Z.to_nat j - Z.to_nat p))%nat
+        with (Z.to_nat j) by lia. exact Hy. }
+    match goal with F : forallb _ (take p varnames) = true |- _ =>
+      rewrite forallb_forall in F; specialize (F y (nth_error_In _ _ Hxt)) end.
+    apply existsb_str_In in Hyd. rewrite Hyd in *. discriminate.
+Qed.
+
+Lemma preset_unique_0 {T} (keq : T -> T -> bool) tbl : TR.preset_unique keq tbl 0.
+Proof. intros i j a b Hi. lia. Qed.
+
+Lemma DI0_str tbl : TR.DI str_eqb tbl (toargs_init tbl 0).
+Proof.
+  apply (TR.DI_init str_eqb str_eqb_refl str_eqb_sym str_eqb_trans); [unfold zlen; lia|apply preset_unique_0].
+Qed.
+Lemma DI0_key tbl : TR.DI key_eqb tbl (toargs_init tbl 0).
+Proof. apply (TR.DI_init key_eqb kr ks_ kt); [unfold zlen; lia|apply preset_unique_0]. Qed.
+
+Lemma doc_rule_hyp bt a ks : bt_consistent bt a ks = true ->
+  docstring_is_none bt = true -> match ks with KInner (IStr _) :: _ => False | _ => True end.
+Proof.
+  unfold bt_consistent, docstring_is_none. destruct bt as [f|]; [|discriminate].
+  intros H Hd. split_andb. destruct (fn_doc f); [discriminate|].
+  destruct ks as [|[[]|] r]; try exact I. discriminate.
+Qed.
+
+Lemma init_inv names varnames freevars cellvars ks bt a st1 :
+  tables_wf varnames freevars a = true -> bt_consistent bt a ks = true ->
+  (if has_docstring bt then
+     match found_index key_eqb (toargs_init ks 0) 0 with
+     | OK (_, _, t) => OK (mkDec (toargs_init names 0) (toargs_init varnames (args_len a))
+                                 (toargs_init cellvars 0) t)
+     | Err e => Err e
+     end
+   else OK (mkDec (toargs_init names 0) (toargs_init varnames (args_len a))
+                  (toargs_init cellvars 0) (toargs_init ks 0))) = OK st1 ->
+  exists est0, enc_init key_eqb (fun s => KInner (IStr s)) bt = OK est0 /\
+               Inv names varnames cellvars ks st1 est0.
+Proof.
+  intros Twf Bc Hst.
+  destruct (varnames_preset _ _ _ Twf) as (Hp & Hu & Hav & _).
+  unfold bt_consistent in Bc. destruct bt as [f|].
+  - split_andb.
+    match goal with A : args_eqb _ _ = true |- _ => apply ConstsProofs.args_eqb_spec in A; rename A into Hfa end.
+    destruct (TR.EI_preset0 str_eqb str_eqb_refl str_eqb_sym str_eqb_trans varnames (args_len a) Hp Hu)
+      as (fv0 & Hset & HEv).
+    assert (HDv := TR.DI_init str_eqb str_eqb_refl str_eqb_sym str_eqb_trans varnames (args_len a) Hp Hu).
+    unfold enc_init. rewrite Hfa, Hav.
+    change ((fix go (l : list str) (i : Z) (t : fromargs str) {struct l} : res (fromargs str) :=
+               match l with
+               | [] => OK t
+               | k :: r => match fa_setitem str_eqb t i k with
+                           | OK t' => go r (i + 1) t'
+                           | Err e => Err e
+                           end
+               end) (take (args_len a) varnames) 0 fromargs_empty)
+      with (TR.set_all str_eqb (take (args_len a) varnames) 0 fromargs_empty).
+    rewrite Hset. unfold has_docstring in Hst.
+    destruct (fn_doc f) as [d|] eqn:Ed.
+    + cbn [opt_is_some] in Hst.
+      destruct ks as [|[[]|] r]; try discriminate.
+      match goal with S : str_eqb d ?s' = true |- _ => apply str_eqb_spec in S; subst s' end.
+      destruct (found_index key_eqb (toargs_init (KInner (IStr d) :: r) 0) 0) as [[[x ov] t]|] eqn:F;
+        [|discriminate].
+      inversion Hst; subst st1. clear Hst.
+      assert (Hr0 : 0 <= 0 < zlen (KInner (IStr d) :: r)) by (unfold zlen; cbn [length]; lia).
+      destruct (TR.replay_step key_eqb kr ks_ kt _ _ _ _ _ _ _ (DI0_key _) (TR.EI_empty key_eqb _)
+                  Hr0 F) as (fs1 & Hadd & HD1 & HE1).
+      assert (Hx : x = KInner (IStr d)).
+      { apply DV.found_index_spec in F as [F _]. cbn in F. now inversion F. }
+      subst x.
+      assert (Hset0 : fa_setitem key_eqb fromargs_empty 0 (KInner (IStr d)) = OK fs1).
+      { unfold fa_add in Hadd. destruct ov as [i|].
+        - destruct (fa_setitem key_eqb fromargs_empty i (KInner (IStr d))) eqn:E; [|discriminate].
+          inversion Hadd; subst. exact E.
+        - cbn [key_lookup fa_index fromargs_empty fa_items] in Hadd.
+          change (zlen (@nil (Z * const))) with 0 in Hadd.
+          destruct (fa_setitem key_eqb fromargs_empty 0 (KInner (IStr d))) eqn:E; [|discriminate].
+          inversion Hadd; subst. reflexivity. }
+      rewrite Hset0. eexists. split; [reflexivity|].
+      constructor; cbn [d_names d_varnames d_cellvars d_consts e_names e_varnames e_cellvars e_consts];
+        try apply DI0_str; try apply TR.EI_empty; assumption.
+    + cbn [opt_is_some] in Hst. inversion Hst; subst st1. eexists. split; [reflexivity|].
+      constructor; cbn [d_names d_varnames d_cellvars d_consts e_names e_varnames e_cellvars e_consts];
+        try apply DI0_str; try apply DI0_key; try apply TR.EI_empty; assumption.
+  - cbn [has_docstring] in Hst. inversion Hst; subst st1. assert (Hz : args_len a = 0) by lia.
+    rewrite Hz. eexists. split; [reflexivity|].
+    constructor; cbn [d_names d_varnames d_cellvars d_consts e_names e_varnames e_cellvars e_consts];
+      try apply DI0_str; try apply DI0_key; try apply TR.EI_empty.
+Qed.
+
+(* ------------------------------------------------------------------ *)
+(** * 6. Per-instruction facts for the retargeted instructions *)
+
+Lemma retarget_nargs {C} T (i : instr_ C) : i_nargs (retarget T i) = i_nargs i.
+Proof. unfold retarget. destruct (i_arg i); reflexivity. Qed.
+
+Lemma instrsize_small a : 0 <= a < 256 -> instrsize a = 1.
+Proof.
+  intros H. unfold instrsize. destruct (a <? 0) eqn:E1; [lia|]. destruct (a <=? 255) eqn:E2; [reflexivity|lia].
+Qed.
+
+Lemma add_freevar_offset_v0 cellvars (l : list (instr_ const)) : forall ps, length l = length ps ->
+  add_freevar_offset (zlen cellvars) l (zipw (v0i cellvars) l ps) = zipw v1i l ps.
+Proof.
+  unfold add_freevar_offset. induction l as [|i l IH]; intros [|p ps] H; try discriminate; [reflexivity|].
+  rewrite !zipw_cons. cbn [combine map fst snd]. rewrite IH by (cbn in H; lia). f_equal.
+  unfold v0i, v1i, v0. destruct (i_arg i); lia.
+Qed.
+
+Lemma instr_facts c cellvars T (oi : Z * instr_ const) p :
+  irel c cellvars oi p -> pi_ok p ->
+  is_jump_op c (p_op p) || (p_nargs p =? instrsize (p_arg p)) = true ->
+  let i' := retarget T (snd oi) in
+  i_name i' = p_op p /\ n_units (i_nargs i') (p_arg p) = p_nargs p /\ sz_ok i' p /\
+  (forall t rel, i_arg (snd oi) = AJump t rel ->
+     t = (if rel then p_next p + scale c * p_arg p else scale c * p_arg p) /\
+     (i_nargs i' = None -> 0 <= p_arg p < 256) /\ (forall n, i_nargs i' = Some n -> n <> 0)).
+Proof.
+  intros (Ho & Hn & Hrel & Hnov) (Ha & Hk & Hnx & Hone) Hmin. cbv zeta.
+  rewrite DV.retarget_name, retarget_nargs, Hnov. split; [exact Hn|].
+  unfold sz_ok. rewrite retarget_nargs, Hnov.
+  destruct (i_arg (snd oi)) as [z|t rel|s0 ov|s0 ov|k0 ov|s0|s0 ov|z] eqn:Ea; cbn [arg_rel nov_of] in *;
+    try (assert (Hj : is_jump_op c (p_op p) = false) by tauto; rewrite Hj in Hmin; cbn [orb] in Hmin;
+         rewrite BP.retarget_nonjump by (intros ? ? X; rewrite Ea in X; discriminate X);
+         unfold v1i; rewrite Ea; cbn [n_units];
+         split; [lia|]; split; [lia|]; intros ? ? X; discriminate X).
+  destruct Hrel as [_ Ht].
+  unfold v1i. rewrite (BP.retarget_jump T _ _ _ Ea).
+  destruct (p_nargs p >? 1) eqn:E1.
+  - cbn [n_units]. destruct (p_nargs p =? 0) eqn:E0; [lia|].
+    split; [reflexivity|]. split; [reflexivity|]. intros t' rel' X. inversion X; subst t' rel'.
+    split; [exact Ht|]. split; [discriminate|]. intros n X'. inversion X'. lia.
+  - assert (H1 : p_nargs p = 1) by lia. specialize (Hone H1). cbn [n_units].
+    rewrite (instrsize_small (p_arg p)) by lia. rewrite (instrsize_small 1) by lia.
+    split; [lia|]. split; [lia|]. intros t' rel' X. inversion X; subst t' rel'.
+    split; [exact Ht|]. split; [lia|]. discriminate.
+Qed.
+
+Lemma Forall2_nth_r {A B} (R : A -> B -> Prop) l ps : Forall2 R l ps ->
+  forall n p, nth_error ps n = Some p -> exists x, nth_error l n = Some x /\ R x p.
+Proof.
+  induction 1 as [|x p l ps Hxp HF IH]; intros n q Hn; [destruct n; discriminate|].
+  destruct n as [|n]; cbn in Hn.
+  - inversion Hn; subst. exists x. split; [reflexivity|exact Hxp].
+  - apply IH in Hn. exact Hn.
+Qed.
+
+(* ------------------------------------------------------------------ *)
+(** * 7. K3, component 1 *)
+
+Ltac dmatch H :=
+  match type of H with
+  | match ?X with _ => _ end = _ => destruct X eqn:?; try discriminate H
+  end.
+
+Theorem K3_values : S_K3_values.
+Proof.
+  unfold S_K3_values.
+  intros c b lm names varnames freevars cellvars ks bt a blocks addl lm' ps W U Tg Twf Bc Ep Hmin H.
+  destruct (DV.ops_wf_spec c W) as [HE _].
+  unfold bytes_to_blocks in H. cbv zeta in H.
+  cbn [d_consts d_names d_varnames d_cellvars] in H.
+  match type of H with
+  | match ?X with _ => _ end = _ => destruct X as [st1|e] eqn:Est; [|discriminate]
+  end.
+  rewrite Ep in H.
+  match type of H with
+  | match ?X with _ => _ end = _ => destruct X as [[[ois lm1] st2]|e] eqn:Ed; [|discriminate]
+  end.
+  set (T := sorted_set (0 :: jump_targets ois)) in *.
+  destruct (split_blocks T ois [] false) as [blocks0|e] eqn:Es; [|discriminate].
+  destruct (additional_args str_eqb (d_names st2)) as [an|] eqn:An; [|discriminate].
+  destruct (additional_args str_eqb (d_varnames st2)) as [av|] eqn:Av; [|discriminate].
+  destruct (additional_args str_eqb (d_cellvars st2)) as [ac|] eqn:Ac; [|discriminate].
+  destruct (additional_args key_eqb (d_consts st2)) as [ak|] eqn:Ak; [|discriminate].
+  inversion H; subst blocks0 lm1 addl. clear H.
+  (* tables: initial states, instruction loop, additional arguments *)
+  destruct (init_inv _ _ _ _ _ _ _ _ Twf Bc Est) as (est0 & Hinit & HI0).
+  destruct (varnames_preset _ _ _ Twf) as (_ & _ & _ & Hfree).
+  pose proof (doc_rule_hyp _ _ _ Bc) as Hdoc.
+  destruct (parse_tiled c b ps U Ep) as [Hpi Htl].
+  assert (Hnn : Forall (fun p => 0 <= p_arg p) ps).
+  { eapply Forall_impl; [|exact Hpi]. intros p Hp. apply Hp. }
+  destruct (decode_sim c names varnames freevars cellvars ks bt Hdoc Hfree T _ _ _ _ _ _ _ HI0 Hnn Ed)
+    as (est1 & Hfs & HI1 & HR).
+  destruct (additional_sim names varnames freevars cellvars ks bt Hdoc _ _ _ _ _ _ HI1 An Av Ac Ak)
+    as (est2 & Hadd & Tn & Tv & Tc & Tk).
+  (* blocks: the partition facts *)
+  pose proof (BP.decode_instrs_offsets _ _ _ _ _ _ _ _ _ Ed) as Hoff.
+  assert (Hoff' : map fst ois = map p_first ps).
+  { rewrite Hoff. apply map_ext. intros p. apply p_first_eq. }
+  assert (Hfacts : concat blocks = map (retarget T) (map snd ois) /\
+                   Forall (fun b => b <> []) blocks /\
+                   (forall o i t rel, In (o, i) ois -> i_arg i = AJump t rel ->
+                      exists k, i_arg (retarget T i) = AJump k rel /\ 0 <= k < zlen blocks /\
+                        nth_error (BP.block_starts blocks (map fst ois)) (Z.to_nat k) = Some t)).
+  { assert (Hcase : ois = [] \/ ois <> []) by (destruct ois; [left; reflexivity|right; discriminate]).
+    destruct Hcase as [Hnil|Hne].
+    { unfold T in Es. rewrite Hnil in *. cbn [split_blocks] in Es. inversion Es; subst blocks.
+      split; [reflexivity|]. split; [constructor|]. intros o i t rel []. }
+    destruct (DV.parse_dis_gen c names varnames freevars cellvars ks HE b 0 0 0 ps U ltac:(lia) ltac:(lia)
+                ltac:(reflexivity) ltac:(reflexivity) Ep) as [HL Hnn'].
+    change (0 =? 0) with true in HL. cbv iota in HL.
+    assert (S1 : DV.st_ok names varnames cellvars ks st1).
+    { destruct HI0. unfold DV.st_ok. repeat split; eapply TR.D_args; eassumption. }
+    pose proof (DV.decode_instrs_view c names varnames freevars cellvars ks key_eqb W _ _ _ _ _ _ S1 Hnn' Ed)
+      as Hv.
+    destruct (BP.parse_bytes_offsets _ _ _ Ep) as [Hinc [Hfirst _]].
+    assert (Hhd : exists i r, ois = (0, i) :: r).
+    { destruct ois as [|[o i] r]; [congruence|].
+      destruct ps as [|p ps']; [discriminate|]. cbn [map fst] in Hoff. injection Hoff as Ho _.
+      rewrite (Hfirst p ps' eq_refl) in Ho. subst o. eauto. }
+    assert (Hoi : BP.offsets_increasing ois) by (unfold BP.offsets_increasing; now rewrite Hoff).
+    assert (Hfo : map (fun x : Z * instr_ const => fst (fst (DV.oview x))) ois = map fst ois)
+      by reflexivity.
+    assert (Hts : BP.targets_are_starts ois).
+    { intros t Ht. apply BP.jump_targets_In in Ht as [o [i [rel [Hin Ei]]]].
+      unfold targets_ok in Tg. cbv zeta in Tg. rewrite HL, <- Hv in Tg. rewrite forallb_forall in Tg.
+      specialize (Tg (DV.oview (o, i)) (in_map DV.oview _ _ Hin)). unfold DV.oview in Tg at 1.
+      cbn [snd fst] in Tg. rewrite Ei in Tg. cbn [DV.raw_val] in Tg. apply BP.zmem_In in Tg.
+      rewrite map_map, Hfo in Tg. exact Tg. }
+    destruct (BP.split_blocks_partition ois Hne Hoi Hhd Hts) as [blocks' [Es' [Hc [Hnb [Hbs [Hlen Hj]]]]]].
+    fold T in Es', Hc, Hbs, Hlen, Hj.
+    rewrite Es in Es'. inversion Es'; subst blocks'. clear Es'.
+    split; [exact Hc|]. split; [exact Hnb|exact Hj]. }
+  destruct Hfacts as (Hc & Hnb & Hj).
+  (* per-instruction facts *)
+  rewrite map_map in Hc. set (f := fun oi : Z * instr_ const => retarget T (snd oi)) in *.
+  assert (Hlen : length (map f ois) = length ps).
+  { rewrite map_length. eapply BP.decode_instrs_length; eassumption. }
+  assert (Hall : forall oi p, In oi ois -> In p ps -> irel c cellvars oi p ->
+            i_name (f oi) = p_op p /\ n_units (i_nargs (f oi)) (p_arg p) = p_nargs p /\ sz_ok (f oi) p /\
+            (forall t rel, i_arg (snd oi) = AJump t rel ->
+               t = (if rel then p_next p + scale c * p_arg p else scale c * p_arg p) /\
+               (i_nargs (f oi) = None -> 0 <= p_arg p < 256) /\
+               (forall n, i_nargs (f oi) = Some n -> n <> 0))).
+  { intros oi p Hoi Hp Hr. rewrite Forall_forall in Hpi.
+    unfold minimal_widths in Hmin. rewrite forallb_forall in Hmin.
+    exact (instr_facts c cellvars T oi p Hr (Hpi p Hp) (Hmin p Hp)). }
+  assert (Hsz : Forall2 sz_ok (map f ois) ps).
+  { eapply Forall2_map_l_in; [exact HR|]. intros oi p Hoi Hp Hr. apply (Hall oi p Hoi Hp Hr). }
+  assert (Hjr : forall offs,
+             Forall2 (fun bo t => t = 2 * bo) offs (BP.block_starts blocks (map p_first ps)) ->
+             Forall2 (jrel c offs) (map f ois) ps).
+  { intros offs Hoffs. eapply Forall2_map_l_in; [exact HR|]. intros [o i] p Hoi Hp Hr.
+    destruct (Hall _ p Hoi Hp Hr) as (_ & _ & Hs & Hjmp). split; [exact Hs|].
+    unfold f. cbn [snd] in *.
+    destruct (i_arg i) as [z|t rel|s0 ov|s0 ov|k0 ov|s0|s0 ov|z] eqn:Ea;
+      try (rewrite BP.retarget_nonjump by (intros ? ? X; rewrite Ea in X; discriminate X);
+           rewrite Ea; exact I).
+    destruct (Hj o i t rel Hoi Ea) as (k & Ek & Hk & Hn). rewrite Ek.
+    rewrite Hoff' in Hn.
+    destruct (Forall2_nth_r _ _ _ Hoffs _ _ Hn) as (toff & Hto & Ht2).
+    destruct (Hjmp t rel eq_refl) as (Ht & Hnone & Hsome).
+    exists toff. split.
+    - unfold py_index_dict. destruct (k <? 0) eqn:E; [lia|exact Hto].
+    - split; [lia|]. split; assumption. }
+  (* assemble *)
+  exists est2. split; [|split; [exact Tn|split; [exact Tv|split; [exact Tc|split; [exact Tk|]]]]].
+  - unfold encode_values. rewrite Hinit. cbv zeta. rewrite Hc.
+    fold f in Hfs. rewrite map_map in Hfs. fold f in Hfs. rewrite Hfs, Hadd.
+    rewrite (to_tuple_len _ _ Tc). rewrite add_freevar_offset_v0 by exact Hlen.
+    rewrite <- Hc in *.
+    rewrite (relax_ok c blocks ps Htl Hsz Hnb Hjr). reflexivity.
+  - rewrite Hc. eapply Forall2_map_l_in; [exact HR|]. intros oi p Hoi Hp Hr.
+    destruct (Hall oi p Hoi Hp Hr) as (H1 & H2 & _). split; assumption.
+Qed.
+
+Print Assumptions blocks_to_bytes_halves.
+Print Assumptions K3_values.
+
+(* ------------------------------------------------------------------ *)
+(** * 8. The premise [minimal_widths] is needed (checked by computation, 3.9 configuration)
+
+    A redundant EXTENDED_ARG 0 in front of LOAD_CONST is not recorded by the decoder (only jumps
+    carry [_n_args_override]); the re-encoded instruction is one unit shorter and the jump over it
+    gets another operand.  All other premises of S_K3_values hold. *)
+Module NeedsMinimalWidths.
+  Definition c := PCD.Gen.Cfg39.cfg.
+  Definition b := [144; 0; 100; 0; 113; 6; 83; 0].   (* EXTENDED_ARG 0; LOAD_CONST 0; JUMP_ABSOLUTE 6; RETURN_VALUE *)
+  Definition ks := [KInner INone].
+  Definition lm : linemap := {| lm_lines := [(0, Some 1); (4, Some 1); (6, Some 1)]; lm_adds := [] |}.
+
+  Example premises :
+    (cfg_ops_wf c, code_ok c b, targets_ok c b [] [] [] [] ks, tables_wf [] [] empty_args,
+     bt_consistent None empty_args ks) = (true, true, true, true, true)
+    /\ match parse_bytes c b 0 0 0 with OK ps => minimal_widths c ps = false | Err _ => False end.
+  Proof. vm_compute. split; reflexivity. Qed.
+
+  Example values_differ :
+    match parse_bytes c b 0 0 0, bytes_to_blocks key_eqb c b lm [] [] [] [] ks None empty_args with
+    | OK ps, OK (blocks, addl, _) =>
+        match encode_values key_eqb is_str_const (KInner INone) (fun s => KInner (IStr s))
+                c blocks addl [] None with
+        | OK (vals, _) => vals = [0; 4; 0] /\ map p_arg ps = [0; 6; 0] /\
+                          map (fun i : instr_ const => n_units (i_nargs i) 0) (firstn 1 (concat blocks)) = [1] /\
+                          map p_nargs (firstn 1 ps) = [2]
+        | Err _ => False
+        end
+    | _, _ => False
+    end.
+  Proof. vm_compute. repeat split; reflexivity. Qed.
+End NeedsMinimalWidths.
+
+Check (K3_values : S_K3_values).
+Check (blocks_to_bytes_halves : S_blocks_to_bytes_halves).
